@@ -62,12 +62,29 @@ def run(ctx, rep):
     for st in states:
         ops = [(FIELDS[k], st[k]) for k in ORDER] + [(2, 0)]
         cases.append((ops, [[]], ctx.rng.randrange(256)))
+    # the same after get_capabilities() answered by appliances that advertise little or nothing (random subsets of the capability
+    # records, every value 0/1): what the appliance advertises must not silently change what a later apply requests
+    import acresp as A
+    ncap = ctx.n(500, 5000)
+    cap_ids = list(range(0x210, 0x236)) + [0x10, 0x18, 0x1E, 0x39, 0x42, 0x43, 0x48, 0x4B, 0xE3]
+    capstates = []
+    for i in range(ncap):
+        st = rand_state(rng := ctx.rng)
+        if i % 3 == 0:
+            st["freeze"] = 1
+        recs = [] if i % 5 == 0 else [(c, [rng.choice([0, 0, 1])]) for c in rng.sample(cap_ids, rng.randrange(0, 12))]
+        ops = [(3, 0)] + [(FIELDS[k], st[k]) for k in ORDER] + [(2, 0)]
+        cases.insert(0, (ops, [[A.mk_frame(A.caps_body(recs))], []], rng.randrange(256)))
+        st["_advertised_capabilities"] = [(hex(c), v) for c, v in recs]
+        capstates.insert(0, st)
+    states = capstates + states
     # correspondence of the whole apply() path (state dump + sent bodies) on a slice; bodies for all
-    nb = ctx.n(600, 6000)
+    nb = ctx.n(600, 6000) + ncap
     res = D.compare(ctx, rep, cases[:nb], tag="apply")
     for c in cases[nb:]:
         res.append(D.run_impl(*c))
-    bodies = [r[3][0] if r[3] else None for r in res]
+    # the control body is the LAST body sent (a capabilities query may precede it)
+    bodies = [([b for b in r[3] if b and b[0] == 0x40] or [None])[-1] if r[3] else None for r in res]
     dec = ctx.model.batch([(F_DECODE, [b or []]) for b in bodies])
     seen = {}
     for st, r, body, (dst, douts) in zip(states, res, bodies, dec):
